@@ -37,7 +37,7 @@ func (t *c07Typed) Quirks() c07Quirks {
 		HasBaseSeq:            true, HasTrusted: true, HasServerAlloc: true,
 		HasApply: true, HasApplyStrict: false, HasApplyCkpt: true, HasCkpt: true, HasTruncate: true,
 		HasListByNo: true, HasLookupPair: true, HasLastSender: true, HasGetByID: true,
-		HasHash: true, HasCompatFields: false, ExactRetention: true,
+		HasHash: true, HasHitHash: true, HasCompatFields: false, ExactRetention: true,
 		// An empty payload through the typed API is covered by the dedicated
 		// probe family (see c07ProbeTypedEmptyPayload), not by the random body.
 		EmptyPayloadOK:  false,
